@@ -325,6 +325,142 @@ fn tar_prefix_observation(args: &Args, out: &mut Out, rng: &mut Rng) {
 	let _ = std::fs::remove_file(&path);
 }
 
+// ───────────── write faults: an operation of the DataWriterTrait fails (once, by size, or from then on) ─────────────
+
+#[derive(Clone, Copy, Debug, PartialEq)]
+enum FaultPolicy {
+	/// the n-th operation fails once (disk nearly full for that blob, transient EIO); later ones succeed
+	NthOnce(usize),
+	/// every append / write_start of more than k bytes fails (quota, EFBIG); smaller ones succeed
+	LargerThan(usize),
+	/// the n-th and every later operation fails
+	FromNth(usize),
+}
+impl FaultPolicy {
+	fn show(&self) -> String {
+		match self {
+			FaultPolicy::NthOnce(n) => format!("once:{n}"),
+			FaultPolicy::LargerThan(k) => format!("larger:{k}"),
+			FaultPolicy::FromNth(n) => format!("from:{n}"),
+		}
+	}
+	fn parse(s: &str) -> Option<FaultPolicy> {
+		let (a, b) = s.split_once(':')?;
+		let v: usize = b.parse().ok()?;
+		Some(match a {
+			"once" => FaultPolicy::NthOnce(v),
+			"larger" => FaultPolicy::LargerThan(v),
+			_ => FaultPolicy::FromNth(v),
+		})
+	}
+}
+
+/// forwards to a real `DataWriterBlob`, except that the chosen operations fail with an error and write nothing
+struct FaultyWriter {
+	inner: DataWriterBlob,
+	policy: FaultPolicy,
+	count: usize,
+	faults: usize,
+}
+impl FaultyWriter {
+	fn fails(&mut self, size: usize) -> bool {
+		let i = self.count;
+		self.count += 1;
+		let f = match self.policy {
+			FaultPolicy::NthOnce(n) => i == n,
+			FaultPolicy::LargerThan(k) => size > k,
+			FaultPolicy::FromNth(n) => i >= n,
+		};
+		if f {
+			self.faults += 1;
+		}
+		f
+	}
+}
+impl DataWriterTrait for FaultyWriter {
+	fn append(&mut self, blob: &Blob) -> Result<ByteRange> {
+		if self.fails(blob.len() as usize) {
+			anyhow::bail!("injected write fault (append of {} bytes)", blob.len());
+		}
+		self.inner.append(blob)
+	}
+	fn write_start(&mut self, blob: &Blob) -> Result<()> {
+		if self.fails(blob.len() as usize) {
+			anyhow::bail!("injected write fault (write_start)");
+		}
+		self.inner.write_start(blob)
+	}
+	fn get_position(&mut self) -> Result<u64> {
+		self.inner.get_position()
+	}
+	fn set_position(&mut self, position: u64) -> Result<()> {
+		if self.fails(0) {
+			anyhow::bail!("injected write fault (set_position)");
+		}
+		self.inner.set_position(position)
+	}
+}
+
+/// One run of the real writer against a faulty `DataWriterTrait`.  Oracle: the write call fails loudly
+/// (Err or panic) – then what it left behind must not open as a wrong container –, or it returns Ok and the
+/// file opens and delivers every source tile.  A write that "succeeds" while a tile is missing is the violation.
+fn emit_fault(out: &mut Out, src: &Src, container: char, policy: FaultPolicy) {
+	let rt = tokio::runtime::Builder::new_current_thread().enable_all().build().unwrap();
+	let mut mem = src.mem();
+	let mut w = FaultyWriter { inner: DataWriterBlob::new().unwrap(), policy, count: 0, faults: 0 };
+	let r = catch(|| {
+		rt.block_on(async {
+			if container == 'v' {
+				VersaTilesWriter::write_to_writer(&mut mem, &mut w).await
+			} else {
+				PMTilesWriter::write_to_writer(&mut mem, &mut w).await
+			}
+		})
+	});
+	let outcome = match &r {
+		Ok(Ok(())) => "ok",
+		Ok(Err(_)) => "err",
+		Err(_) => "panic",
+	};
+	let bytes = w.inner.as_slice().to_vec();
+	let (v, msg) = open_and_compare(&rt, container, &bytes, src);
+	let line = format!("C12 fault {container} {} {}", policy.show(), src.show());
+	out.eval(&line, w.faults > 0);
+	out.count(&format!("fault_{container}_{}_write_{outcome}{}", match policy {
+		FaultPolicy::NthOnce(_) => "once",
+		FaultPolicy::LargerThan(_) => "larger",
+		FaultPolicy::FromNth(_) => "from",
+	}, if w.faults == 0 { "_no_fault_fired" } else { "" }));
+	let ok = if outcome == "ok" { v == Verdict::Intact } else { v != Verdict::Wrong };
+	let what = if outcome == "ok" {
+		format!("C12 silent-write-fault: {} operation(s) of the DataWriterTrait failed, write_to_writer returned Ok, but the file does not deliver every source tile ({msg})", w.faults)
+	} else {
+		format!("C12 opens-wrong: after a failed write ({outcome}) the file left behind opens as a container that lacks or misreports a tile ({msg})")
+	};
+	out.oracle(ok, &what, json!({"kind": if outcome == "ok" { "silent-write-fault" } else { "opens-wrong" }, "format": container.to_string(), "target": "faulty-writer", "comp": comp_name(src.comp)}), json!({"case": trunc(&line, 6000), "policy": policy.show(), "write_result": outcome, "faults_fired": w.faults, "message": msg}));
+}
+
+fn emit_faults(out: &mut Out, rng: &mut Rng, src: &Src, container: char) {
+	let Ok((ops, _)) = record(src, container) else { return };
+	let n = ops.len();
+	// every operation fails once (sampled above 40 operations); size thresholds; sticky failures
+	let mut points: Vec<usize> = if n <= 40 { (0..n).collect() } else { (0..40).map(|_| rng.below(n as u64) as usize).collect() };
+	points.sort();
+	points.dedup();
+	for p in points {
+		emit_fault(out, src, container, FaultPolicy::NthOnce(p));
+	}
+	let mut sizes: Vec<usize> = ops.iter().map(|o| o.size()).collect();
+	sizes.sort();
+	sizes.dedup();
+	for k in [0usize, 8, 20, 66, 127, 999, 8191].iter().copied().chain(sizes.iter().rev().take(3).map(|s| s.saturating_sub(1))) {
+		emit_fault(out, src, container, FaultPolicy::LargerThan(k));
+	}
+	for _ in 0..3 {
+		emit_fault(out, src, container, FaultPolicy::FromNth(rng.below(n as u64) as usize));
+	}
+}
+
 fn record(src: &Src, container: char) -> Result<(Vec<Op>, Vec<u8>), String> {
 	let rt = tokio::runtime::Builder::new_current_thread().enable_all().build().unwrap();
 	let mut mem = src.mem();
@@ -837,13 +973,21 @@ fn emit_overwrite(out: &mut Out, rng: &mut Rng, laws: &mut Laws, dir: &std::path
 pub fn run(args: &Args) {
 	quiet_panics();
 	let mut out = Out::new(&args.out);
-	out.rule = "tile sets of 1–14 (thorough: also 40–300) tiles over zoom 0–10 with empty, duplicate, tiny and ≥1000-byte payloads, formats pbf/png/bin/json/webp, declared compression none/gzip/brotli; the REAL VersaTilesWriter and PMTilesWriter run against a recording DataWriterTrait; crash states = every op-prefix, EVERY byte cut of the provisional header and of the final header rewrite (66 resp. 127 cuts; sampled for the large thorough sets), first/last/middle/2 random byte cuts of every other op, and the completed file; additionally the same through the REAL DataWriterFile (every call forwarded, the file copied after each completed call, byte cuts applied to the copy): on a fresh path, and with a DIFFERENT tile set written over the completed container at the same path (old file longer and shorter than the new one) – judged against the NEW source; each state is materialised (positional write, zero fill) and opened with the real reader, all source tiles and neighbouring absent coordinates are compared, the advertised coverage must contain every source tile and streaming the advertised levels must deliver every source tile; non-trivial = a state inside an operation or inside the header rewrite; distinct by (ops, cut)".into();
+	out.rule = "tile sets of 1–14 (thorough: also 40–300) tiles over zoom 0–10 with empty, duplicate, tiny and ≥1000-byte payloads, formats pbf/png/bin/json/webp, declared compression none/gzip/brotli; the REAL VersaTilesWriter and PMTilesWriter run against a recording DataWriterTrait; crash states = every op-prefix, EVERY byte cut of the provisional header and of the final header rewrite (66 resp. 127 cuts; sampled for the large thorough sets), first/last/middle/2 random byte cuts of every other op, and the completed file; additionally the same through the REAL DataWriterFile (every call forwarded, the file copied after each completed call, byte cuts applied to the copy): on a fresh path, and with a DIFFERENT tile set written over the completed container at the same path (old file longer and shorter than the new one) – judged against the NEW source; each state is materialised (positional write, zero fill) and opened with the real reader, all source tiles and neighbouring absent coordinates are compared; write FAULTS: the real writers run against a DataWriterTrait in which the n-th operation fails once (every n), every operation above k bytes fails, or every operation from the n-th on fails – the write call must return Err / panic (and leave nothing that opens wrong) or, if it returns Ok, the file must deliver every source tile; the advertised coverage must contain every source tile and streaming the advertised levels must deliver every source tile; non-trivial = a state inside an operation or inside the header rewrite; distinct by (ops, cut)".into();
 	let mut laws = Laws { nil_tests: 0, be_tests: 0, prefix_tests: 0, accepted: vec![] };
 	let mut rng = Rng::new(args.seed);
 	if let Some(p) = &args.replay {
 		for line in std::fs::read_to_string(p).unwrap().lines() {
 			let t: Vec<&str> = line.split(' ').collect();
 			if t.len() < 4 || t[0] != "C12" {
+				continue;
+			}
+			if t[1] == "fault" && t.len() >= 5 {
+				if let (Some(policy), Some(sp)) = (FaultPolicy::parse(t[3]), t.iter().position(|x| *x == "src")) {
+					if let Some(src) = Src::parse(&t[sp..]) {
+						emit_fault(&mut out, &src, t[2].chars().next().unwrap_or('v'), policy);
+					}
+				}
 				continue;
 			}
 			let container = t[1].chars().next().unwrap_or('v');
@@ -895,6 +1039,12 @@ pub fn run(args: &Args) {
 		emit(&mut out, &mut rng, &mut laws, &src, 'v', true, None);
 		// a pmtiles file is ≥ 16 KiB: fewer cases carry all 127 header cuts
 		emit(&mut out, &mut rng, &mut laws, &src, 'p', i % 3 == 0, None);
+	}
+	// write faults (an operation fails, the writer must fail loudly or still deliver everything)
+	for round in 0..args.n(6, 40) {
+		let src = if round % 3 == 2 { gen_threshold(&mut rng, round) } else { gen_src(&mut rng, false) };
+		emit_faults(&mut out, &mut rng, &src, 'v');
+		emit_faults(&mut out, &mut rng, &src, 'p');
 	}
 	// thresholds of the writers (1000-byte de-duplication, 8192-byte BufWriter): in memory and through the real file writer
 	for round in 0..args.n(2, 6) {
